@@ -32,6 +32,47 @@ structure Cfg where
   from_ : String
   deriving DecidableEq, Repr
 
+/-! ### where the encoder's address comes from
+
+A negotiated session holds two stream infos.  `LocalAddr()` returns the `to` of the INPUT
+stream info: for a received session that was not told its address this is what the peer's
+header asked for.  The `from` of the output info is something else (what the session's own
+header carried). -/
+structure Addrs where
+  inTo : String
+  inFrom : String
+  outFrom : String
+  outTo : String
+  deriving DecidableEq, Repr
+
+/-- what `(*Session).LocalAddr()` reports -/
+def Addrs.localAddr (a : Addrs) : String := a.inTo
+
+inductive FromSource | localAddr | remoteAddr | outFrom | outTo | other
+  deriving DecidableEq, Repr
+
+/-- the expression assigned to `se.from` (regenerated fact) -/
+def FromSource.ofExpr : String → FromSource
+  | "s.LocalAddr()" => .localAddr
+  | "s.in.Info.To" => .localAddr
+  | "s.RemoteAddr()" => .remoteAddr
+  | "s.in.Info.From" => .remoteAddr
+  | "s.out.Info.From" => .outFrom
+  | "s.out.Info.To" => .outTo
+  | _ => .other
+
+def FromSource.pick : FromSource → Addrs → String
+  | .localAddr, a => a.inTo
+  | .remoteAddr, a => a.inFrom
+  | .outFrom, a => a.outFrom
+  | .outTo, a => a.outTo
+  | .other, _ => ""
+
+/-- `negotiateSession`: the configuration of the session's `stanzaEncoder` (an address only
+on server-to-server streams) -/
+def sessionCfg (src : FromSource) (ns : String) (a : Addrs) : Cfg :=
+  ⟨ns, if ns == nsServer then src.pick a else ""⟩
+
 def stanzaLocal (l : String) : Bool := l == "iq" || l == "message" || l == "presence"
 
 /-- `isStanzaEmptySpace` of session.go -/
